@@ -209,26 +209,58 @@ def path_atoms(ctx, events, upto=None) -> dict[str, bool]:
         if upto is not None and i >= upto:
             break
         if ev.kind == "return" and ev.frame.parent is not None and ev.frame.call_node is not None:
-            returned[id(ev.frame.call_node)] = (ev.data.get("value"), ev.fi)
+            returned[id(ev.frame.call_node)] = (ev.data.get("value"), ev.fi, ev.frame)
             continue
         if ev.kind != "branch":
             continue
-        node, taken, fi_ = ev.node, ev.data["taken"], ev.fi
+        node, taken, fi_, fr_ = ev.node, ev.data["taken"], ev.fi, ev.frame
         # `if self._is_exhausted():` with the helper inlined on this path: the
         # branch is a statement about the expression the helper returned
         t_, neg_ = node, False
         while isinstance(t_, ast.UnaryOp) and isinstance(t_.op, ast.Not):
             t_, neg_ = t_.operand, not neg_
         if isinstance(t_, ast.Call) and id(t_) in returned:
-            rv, rfi = returned[id(t_)]
+            rv, rfi, rfr = returned[id(t_)]
             if isinstance(rv, ast.Constant) and isinstance(rv.value, bool):
                 continue  # a constant result: the helper's own branches say it all
             if isinstance(rv, (ast.Compare, ast.BoolOp, ast.UnaryOp)):
-                node, taken, fi_ = rv, (not taken) if neg_ else taken, rfi
-        text = lambda n, _f=fi_: ctx.norm.xtext(_f, n)  # noqa: E731
+                node, taken, fi_, fr_ = rv, (not taken) if neg_ else taken, rfi, rfr
+        text = lambda n, _f=fi_, _fr=fr_: ctx.norm.xtext(_f, _in_caller_terms(n, _fr))  # noqa: E731
         expand = lambda n, _f=fi_: ctx.norm.xexpr(_f, n)  # noqa: E731
         for a, v in decompose(node, taken, text, expand):
             out[a] = v
+    return out
+
+
+def _in_caller_terms(node, frame):
+    """``node`` (an expression of an inlined callee) with the callee's never-rebound
+    parameters replaced by the access paths the call passed for them, up to the
+    entry frame: `iteration_limit is None` inside `has_reached(self._limit)` reads
+    `self._limit is None`.  Parameters bound to anything but a path stay."""
+    import copy as _copy
+
+    fr = frame
+    out = node
+    hops = 0
+    while fr is not None and fr.parent is not None and hops < 6:
+        hops += 1
+        binds = {}
+        for k, v in (fr.bindings or {}).items():
+            if isinstance(v, (ast.Name, ast.Attribute)) and not _rebound(fr.fi, k):
+                x = v
+                while isinstance(x, ast.Attribute):
+                    x = x.value
+                if isinstance(x, ast.Name):
+                    binds[k] = v
+        if binds:
+            class _S(ast.NodeTransformer):
+                def visit_Name(self, n):
+                    if isinstance(n.ctx, ast.Load) and n.id in binds:
+                        return ast.copy_location(_copy.deepcopy(binds[n.id]), n)
+                    return n
+
+            out = _S().visit(_copy.deepcopy(out))
+        fr = fr.parent
     return out
 
 
@@ -1317,6 +1349,17 @@ def memo_discipline(ctx, ci) -> dict:
 
         if not all(isinstance(n, (ast.Assign, ast.AnnAssign)) and under_none_test(n) for _m, n in fills):
             continue
+        # from here on the attribute has the *shape* of a memo (None when empty, filled only under `is None` in one
+        # method): if a writer below forgets to reset it, the fill is a stale value handed out - a positively
+        # recognised defect, not "bookkeeping of unknown merit" (see new_private_state)
+        shapes = getattr(ctx, "_memo_shapes", None)
+        if shapes is None:
+            shapes = {}
+            try:
+                ctx._memo_shapes = shapes
+            except Exception:  # pragma: no cover
+                pass
+        shapes.setdefault(ci.qualname, set()).add(attr)
         if any(a != attr and any(m is q for m, _n, _v in ws2) for a, ws2 in stores.items()):
             continue
         try:
@@ -1382,3 +1425,38 @@ def is_memo_fill(ctx, ev) -> bool:
         return False
     q = md.get(tgt.attr)
     return q is not None and q.qualname == fi.qualname.split("#")[0]
+
+
+# --------------------------------------------------------------------------
+# state the pinned tree does not have
+def new_private_state(ctx, w) -> str | None:
+    """``w`` (an effects.Write) stores into / mutates a private attribute of
+    ``self`` that the pinned class does not have (`self._completed = set()`,
+    `self._pending.append(x)` with `_pending` unknown to ``BASELINE_ATTRS``):
+    the attribute's name.  Rules of the form "a query writes nothing shared"
+    are *sufficient* conditions; bookkeeping a later commit adds to make a
+    query incremental breaks them without breaking the property, and whether
+    the bookkeeping is right is beyond them - they refuse instead of
+    reporting (a correctly kept memo is accepted outright, see
+    memo_discipline)."""
+    from ..baseline_api import BASELINE_ATTRS
+
+    fi = w.fi
+    ci = getattr(fi, "cls", None)
+    if ci is None or not fi.params:
+        return None
+    known = set()
+    for q in ci.mro:
+        known |= set(BASELINE_ATTRS.get(q.rsplit(".", 1)[-1], ()))
+    if not any(q.rsplit(".", 1)[-1] in BASELINE_ATTRS for q in ci.mro):
+        return None  # not a pinned class: nothing to compare with
+    touched = _touched_attrs(w, fi.params[0])
+    try:
+        memo_discipline(ctx, ci)
+    except Exception:
+        pass
+    memo_like = (getattr(ctx, "_memo_shapes", None) or {}).get(ci.qualname, set())
+    new = sorted(a for a in touched if a.startswith("_") and not a.startswith("__") and a not in known and a not in memo_like)
+    if new and len(new) == len(touched):
+        return new[0]
+    return None
